@@ -937,6 +937,19 @@ fn c05_scenarios(tier: Tier) -> Vec<Scenario> {
         steps.extend(vec![Step::Revoke(1), Step::Settle, Step::Restart, Step::Settle]);
         v.push(Scenario { name: format!("duplicate-notification:acknowledged-earlier:{name}"), towers: 1, opts: RetryOpts::default(), steps });
     }
+    // ... and a commitment the tower has *rejected*, notified again when the tower is down / answers garbage / has lost
+    // the subscription / would accept it now: one record, not two
+    for (name, cond) in [
+        ("tower-down", vec![Step::Down(0)]),
+        ("tower-answers-garbage", vec![Step::Default(0, add.clone(), Reply::NonJson)]),
+        ("subscription-lost", vec![Step::Default(0, add.clone(), Reply::SubscriptionError)]),
+        ("tower-accepts-now", vec![Step::Default(0, add.clone(), Reply::Accept)]),
+    ] {
+        let mut steps = vec![Step::Register(0), Step::Default(0, add.clone(), Reply::Reject(36)), Step::Revoke(1), Step::Settle];
+        steps.extend(cond);
+        steps.extend(vec![Step::Revoke(1), Step::Settle, Step::Default(0, add.clone(), Reply::Accept), Step::Up(0), Step::Sleep(3000), Step::Settle, Step::Restart, Step::Settle]);
+        v.push(Scenario { name: format!("duplicate-notification:rejected-earlier:{name}"), towers: 1, opts: RetryOpts::default(), steps });
+    }
     // two towers share the data of a commitment: one has acknowledged it, the other still has it pending; the commitment
     // is notified again while the first one is down, which then comes back and acknowledges again: the other's record stays
     v.push(Scenario {
